@@ -53,7 +53,8 @@ def check_k0(case, ctx):
     ctx.ok(K.shape == (size, size), 'k0.shape', 'shape %r for size %d' % (K.shape, size))
     Kref = pkg.embed(rp.k0(pd, F, y1=y1, y2=y2), size, row0)
     name = 'k0[%s%s]' % (case['model'], ',y1y2' if y else '')
-    pkg.compare_matrix(ctx, name, K, Kref, TOL, num=pd.num, row0=row0, nd=own, bucket=name)
+    full = pkg.embed(rp.k0(pd, F), size, row0) if y else None
+    pkg.compare_matrix(ctx, name, K, Kref, TOL, num=pd.num, row0=row0, nd=own, bucket=name, full_ref=full)
     # symmetric, PSD
     ctx.close('symmetry', K, K.T, 1e-13, bucket=name + '.symmetry')
     Kb = K[row0:row0 + own, row0:row0 + own]
